@@ -149,6 +149,12 @@ def psphStep (r : Nat) (acc : α) (nb : Nbr α) : α := acc + psphTerm r nb
 /-- `d_p_sph[4*d_idx + r]` after `initialize` (all four reset) and all `loop` calls -/
 def psphEntry (nbrs : List (Nbr α)) (r : Nat) : α := nbrs.foldl (psphStep r) 0
 
+/-- the PINNED code (before the `fix:` commit): `initialize` ran `for i in range(3)`,
+so `d_p_sph[4*d_idx + 3]` was not reset and every compute started its loop from
+the value `prev` the previous compute on the same points had left there -/
+def psphEntryOrig (prev : α) (nbrs : List (Nbr α)) (r : Nat) : α :=
+  nbrs.foldl (psphStep r) (if r = 3 then prev else 0)
+
 /-- the flat 16-entry `a_mat` and 4-entry `b` of `post_loop` -/
 def momentFlat (d : Pos α) (nbrs : List (Nbr α)) : Array α :=
   Array.ofFn (n := 16) (fun i => momentEntry d nbrs (i.val / 4) (i.val % 4))
